@@ -110,6 +110,10 @@ def _write_ds9(regions, filename, *, precision=8, overwrite=False):
         raise OSError(f'{filename} already exists')
 
     output = _serialize_ds9(regions, precision=precision)
+    if not output:
+        # an empty list: write the header line, so that the file can
+        # still be identified as a DS9 region file when it is read
+        output = '# Region file format: DS9 astropy/regions\n'
     with open(filename, 'w') as fh:
         fh.write(output)
 
